@@ -50,6 +50,16 @@ def strategy(tier):
             spec = draw(S.nlp_spec(max_n=4 if tier == "quick" else 6, max_m=3, min_m=1))
         spec["family"] = fam
         m, n = spec["m"], spec["n"]
+        bilinear = fam == "nlp" and n >= 2 and draw(st.integers(0, 3)) == 0
+        if bilinear:
+            # indefinite Hessian with a zero diagonal and O(1)..O(100) off-diagonal coupling: well
+            # conditioned, but every pivot of an unpivoted factorisation is (nearly) zero for large dt
+            Qb = np.zeros((n, n))
+            for i in range(n):
+                for j in range(i):
+                    Qb[i, j] = Qb[j, i] = draw(st.sampled_from([-100.0, -1.0, -0.5, 0.5, 1.0, 3.0]))
+            spec["Q"] = Qb.tolist()
+            spec.pop("w", None), spec.pop("v", None)
         spec["cl"], spec["cu"] = [0.0] * m, [0.0] * m
         lb, ub = np.array(spec["lb"]), np.array(spec["ub"])
         x = []
@@ -67,7 +77,8 @@ def strategy(tier):
             "spec": spec,
             "x": x,
             "y": S.dvec(draw, m, -16, 16, 4.0),
-            "dt": draw(st.sampled_from([0.01, 0.1, 0.5, 1.0, 4.0, 30.0])),
+            # "for all dt > 0": up to 1/lamb_min = 1e12, the largest step the solver itself can take
+            "dt": draw(st.sampled_from([0.01, 0.1, 0.5, 1.0, 4.0, 30.0, 1e3, 1e6, 1e9, 1e12])),
             "rho": draw(st.sampled_from([1e-3, 1e-2, 0.1, 1.0, 10.0])),
         }
 
